@@ -14,6 +14,11 @@ import CLModel.Proofs.C08Refs
 import CLModel.Proofs.C08CGrammar
 import CLModel.Proofs.C08CAgree
 import CLModel.Proofs.C08CReject
+import CLModel.Proofs.C08Text
+import CLModel.Proofs.C08Warn
+import CLModel.Proofs.C08Inst
+import CLModel.Proofs.C08Self
+import CLModel.Proofs.C08Span
 namespace C08
 open Ftl Gen.Tables
 
@@ -573,5 +578,355 @@ example : (parseCssSpec (tx "width: 12emx")).2 = some [CssErr.badContent 11] ∧
 example : cssBad (tx "width:1em;;height:2px") = true ∧ cssBad (tx ";width:1em") = false := by decide +kernel
 
 end examplesC
+
+/-! ## round 4
+
+### text-blindness of the WHOLE checker (also for the untranslated copy)
+
+`C08T.mapMsg f g` replaces the value of every TextElement by `f` of it and the value of every StringLiteral (also of
+named arguments) by `g` of it, everywhere in the message — value, attributes, variants, selectors, call arguments — except
+in a `style` attribute that consists of one single TextElement (that text is the CSS spec under test).  `f`, `g` are
+arbitrary functions.  Spans are inputs of the model and stay (see `check_text_blind` for what that means for the code). -/
+
+/-- **check_message is text-blind, on both sides**: re-texting the localization (and, independently, the reference)
+    changes nothing in the message list of `FluentChecker.check_message` — not one error, warning, position or text. -/
+theorem check_message_text_blind (kp : Option (List Str)) (f g f' g' : Str → Str) (ref : Entry) (l10n : Message) :
+    checkMessage kp (C08T.mapRefEntry f' g' ref) (C08T.mapMsg f g l10n) = checkMessage kp ref l10n :=
+  C08T.checkMessage_map kp f g f' g' ref l10n
+
+/-- **check_term is text-blind** (terms have no CSS exception: every text of the term may change) -/
+theorem check_term_text_blind (kp : Option (List Str)) (f g : Str → Str) (t : Term) :
+    checkTerm kp (C08T.mapTerm f g t) = checkTerm kp t :=
+  C08T.checkTerm_map kp f g t
+
+/-- **FluentChecker.check is text-blind**: for every locale, the results for a re-texted pair are the results for the
+    original pair, except for the U+FFFD warnings of `Checker.check` (category `encodings`), which scan the source text
+    `all` of the localized entity.  (In the code a re-texted entity has other spans; they only move the positions.) -/
+theorem check_text_blind (locale : Option Str) (key all all' : Str) (f g f' g' : Str → Str) (ref l10n : Entry) :
+    ∃ kp rest, getPlural locale = .ok kp ∧
+      check locale key all ref l10n = .ok (checkEncoding key all ++ rest) ∧
+      check locale key all' (C08T.mapRefEntry f' g' ref) (C08T.mapL10nEntry f g l10n) = .ok (checkEncoding key all' ++ rest) := by
+  obtain ⟨kp, hkp, h⟩ := check_ok locale key all ref l10n
+  obtain ⟨kp', hkp', h'⟩ := check_ok locale key all' (C08T.mapRefEntry f' g' ref) (C08T.mapL10nEntry f g l10n)
+  have : kp' = kp := by rw [hkp] at hkp'; cases hkp'; rfl
+  subst this
+  refine ⟨kp', finish l10n.start (entryMsgs kp' ref l10n), hkp, ?_, ?_⟩
+  · rw [h, checkWith_eq]
+  · rw [h', checkWith_eq, C08T.entryMsgs_map, C08T.mapL10nEntry_start]
+
+/-- **The untranslated copy is not special.**  Checking a message against ITSELF (what the linter does, and what compare
+    does for a localization that copied the reference) gives exactly the messages that any re-texted copy gets.  So a
+    shortcut "identical to the reference ⇒ nothing to report" changes verdicts whenever a re-texted copy has one. -/
+theorem untranslated_copy_same_verdicts (kp : Option (List Str)) (f g : Str → Str) (m : Message) :
+    checkMessage kp (.message m) (C08T.mapMsg f g m) = checkMessage kp (.message m) m :=
+  C08T.checkMessage_map_l10n kp f g (.message m) m
+
+/-- relation form: two localizations that differ in their texts only (`C08T.mapMsg` to the empty text gives the same
+    skeleton) get the same messages against any reference -/
+theorem same_skeleton_same_verdicts (kp : Option (List Str)) (ref : Entry) (l l' : Message)
+    (h : C08T.mapMsg (fun _ => []) (fun _ => []) l = C08T.mapMsg (fun _ => []) (fun _ => []) l') :
+    checkMessage kp ref l = checkMessage kp ref l' := by
+  have h1 := C08T.checkMessage_map_l10n kp (fun _ => []) (fun _ => []) ref l
+  have h2 := C08T.checkMessage_map_l10n kp (fun _ => []) (fun _ => []) ref l'
+  rw [← h1, ← h2, h]
+
+/-- **Self-check (`checker.check(entity, entity)`: the linter; compare for a verbatim copy).**  Checking a message against
+    itself never gives a value / attribute error or a reference warning; it gives exactly: the duplicate-attribute warnings,
+    `check_variants` (duplicate keys, plural categories of the locale) of every select expression the message visitors
+    reach, and per `style` attribute the CSS verdict against the (popped) map of the message's own last style — i.e. the
+    findings that are a function of the SHAPE and the locale.  It is not the empty list in general (see the examples). -/
+theorem self_check_structure (kp : Option (List Str)) (m : Message) :
+    checkMessage kp (.message m) m =
+      checkDuplicateAttributes m.attributes
+      ++ (match m.value with | some p => (evPattern false p).flatMap (termMsgs kp) | none => [])
+      ++ C08S.attrsSel kp (refVisitEntry (.message m)).css m.attributes :=
+  C08S.checkMessage_self kp m
+
+/-! ### spans (white space, comments) do not influence verdicts -/
+
+/-- **Equal entities, equal verdicts.**  If `FluentEntity.equals` holds between two localized messages (same AST up to spans
+    and comments: e.g. another indentation, other blanks inside placeables, another comment), `check_message` gives them, against
+    any reference, the same messages up to positions: same severities and texts in the same order (before the sort). -/
+theorem equal_entities_same_verdicts (kp : Option (List Str)) (ref l l' : Message)
+    (h : entityEquals (.message l) (.message l') = true) :
+    (checkMessage kp (.message ref) l).map C08E.pf = (checkMessage kp (.message ref) l').map C08E.pf := by
+  simp only [entityEquals, Entry.id, Entry.value, Entry.attributes, Bool.and_eq_true] at h
+  exact C08E.checkMessage_eqv kp ref l l' h.1.2 h.2
+
+/-- … and so does `check`: as multisets of (severity, text) — the sort by position may order them differently -/
+theorem equal_entities_same_results (kp : Option (List Str)) (ref l l' : Message)
+    (h : entityEquals (.message l) (.message l') = true) :
+    ((finish l.start (checkMessage kp (.message ref) l)).map C08E.opf).Perm
+      ((finish l'.start (checkMessage kp (.message ref) l')).map C08E.opf) := by
+  have h1 := C08E.finish_opf_perm l.start (checkMessage kp (.message ref) l)
+  have h2 := C08E.finish_opf_perm l'.start (checkMessage kp (.message ref) l')
+  rw [equal_entities_same_verdicts kp ref l l' h] at h1
+  exact h1.trans h2.symm
+
+/-- **The verbatim copy of the reference** (`refEntity.equals(l10nEntity)`: compare's "unchanged") gets, up to positions,
+    the self-check of the reference (`self_check_structure`) — which is `[]` only if the reference's own shape is clean for
+    the locale.  This is the exact condition under which the shortcut "equal to the reference ⇒ report nothing" is right. -/
+theorem verbatim_copy_verdicts (kp : Option (List Str)) (ref l : Message)
+    (h : entityEquals (.message ref) (.message l) = true) :
+    (checkMessage kp (.message ref) l).map C08E.pf =
+      (checkDuplicateAttributes ref.attributes
+        ++ (match ref.value with | some p => (evPattern false p).flatMap (termMsgs kp) | none => [])
+        ++ C08S.attrsSel kp (refVisitEntry (.message ref)).css ref.attributes).map C08E.pf := by
+  rw [← self_check_structure, equal_entities_same_verdicts kp ref ref l h]
+
+/-- terms: same value and same attributes up to spans ⇒ same warnings up to positions.  (`FluentTerm.equals` IGNORES the
+    attributes, so for terms `equals` alone does not give this: see the example below.) -/
+theorem equal_terms_same_verdicts (kp : Option (List Str)) (t t' : Term) (hv : t.value.eqv t'.value = true)
+    (ha : attrsEqv t.attributes t'.attributes = true) : (checkTerm kp t).map C08E.pf = (checkTerm kp t').map C08E.pf :=
+  C08E.checkTerm_eqv kp t t' hv ha
+
+/-! ### check_message / check_term as public methods: the defensive RuntimeErrors are unreachable through `check` -/
+
+/-- `L10nMessageVisitor.visit_Term` / `TermVisitor.visit_Message` raise exactly when check_message is handed a Term /
+    check_term a Message as the localized entry … -/
+theorem raw_methods_raise (kp : Option (List Str)) (ref : Entry) (m : Message) (t : Term) :
+    checkMessageRaw kp ref (.term t) = .error .runtime ∧ checkTermRaw kp (.message m) = .error .runtime ∧
+    checkMessageRaw kp ref (.message m) = .ok (checkMessage kp ref m) ∧ checkTermRaw kp (.term t) = .ok (checkTerm kp t) :=
+  ⟨rfl, rfl, rfl, rfl⟩
+
+/-- … and `FluentChecker.check`, which dispatches on the type of the localized entry, never does that: written with the
+    raw methods it is the `checkWith` of all other theorems, for every pair of entries. -/
+theorem check_dispatch_total (kp : Option (List Str)) (key all : Str) (ref l10n : Entry) :
+    checkDispatch kp key all ref l10n = .ok (checkWith kp key all ref l10n) := by
+  cases l10n <;> rfl
+
+/-! ### one FluentChecker instance over a sequence of calls -/
+
+/-- **History does not matter.**  `Ftl.Checker` carries everything a FluentChecker object stores (`locale`, `extra_tests`,
+    `reference`).  Whatever sequence of `set_reference` and `check` calls one instance has served, every `check` returns what
+    a FRESH checker for the same locale returns for that pair; the instance itself only changes by `set_reference`. -/
+theorem checker_history_irrelevant (c : Checker) (acts : List Action) :
+    (c.run acts).1 = acts.filterMap (C08I.freshResult c.locale) ∧
+    (c.run acts).2 = { c with reference := C08I.lastRef acts c.reference } :=
+  C08I.run_spec c acts
+
+/-- in particular the verdict for a pair does not depend on what was checked before or on `set_reference` -/
+theorem checker_verdict_independent (c : Checker) (before : List Action) (key all : Str) (ref l10n : Entry) :
+    ((c.run before).2.step (.case key all ref l10n)).1 = some (check c.locale key all ref l10n) := by
+  rw [(C08I.run_spec c before).2]
+  rfl
+
+/-! ### the order of the `Missing attribute:` errors (a Python set iteration) -/
+
+/-- **Set-iteration order is invisible outside the run.**  `for missing_attr in ref_attrs - l10n_attrs` appends its errors in
+    hash order.  The message list of check_message is `pre ++ run ++ post` with `run` = the Missing-attribute errors
+    (`ftl_error_count`: one per name, each once — a multiset); for ANY other order `run'` of that run, the sorted list that
+    `check` yields is a permutation of the modelled one, and every sub-selection that leaves the run out — e.g. all other
+    messages — is literally the same list.  (All elements of the run sit at position 0 and differ in their text only.) -/
+theorem missing_attr_order_irrelevant (kp : Option (List Str)) (ref l10n : Message) :
+    ∃ pre post, checkMessage kp (.message ref) l10n =
+        pre ++ missingAttrErrs (dictKeys (attrsPos [] ref.attributes)) (dictKeys (attrsPos [] l10n.attributes)) ++ post ∧
+      ∀ run', run'.Perm (missingAttrErrs (dictKeys (attrsPos [] ref.attributes)) (dictKeys (attrsPos [] l10n.attributes))) →
+        (sortBy C08I.posLe (pre ++ run' ++ post)).Perm (sortBy C08I.posLe (checkMessage kp (.message ref) l10n)) ∧
+        ∀ p : Msg → Bool, (∀ m ∈ run', p m = false) →
+          (sortBy C08I.posLe (pre ++ run' ++ post)).filter p = (sortBy C08I.posLe (checkMessage kp (.message ref) l10n)).filter p := by
+  refine ⟨checkDuplicateAttributes l10n.attributes
+      ++ valueMsgs kp (rrOf (refVisitEntry (.message ref)).entryRefs) l10n.value
+      ++ attrsMsgs kp (rrOf (refVisitEntry (.message ref)).entryRefs) (refVisitEntry (.message ref)).css l10n.attributes
+      ++ valueErrs ref.value.isSome l10n.value,
+    obsoleteAttrErrs (dictKeys (attrsPos [] ref.attributes)) (attrsPos [] l10n.attributes)
+      ++ missingRefs (refVisitEntry (.message ref)).entryRefs (l10nVisitMessage kp (refVisitEntry (.message ref)) l10n).entryRefs,
+    ?_, ?_⟩
+  · rw [check_message_structure]; simp only [List.append_assoc]
+  · intro run' hperm
+    have h := C08I.run_order_irrelevant
+      (checkDuplicateAttributes l10n.attributes
+        ++ valueMsgs kp (rrOf (refVisitEntry (.message ref)).entryRefs) l10n.value
+        ++ attrsMsgs kp (rrOf (refVisitEntry (.message ref)).entryRefs) (refVisitEntry (.message ref)).css l10n.attributes
+        ++ valueErrs ref.value.isSome l10n.value) run' _
+      (obsoleteAttrErrs (dictKeys (attrsPos [] ref.attributes)) (attrsPos [] l10n.attributes)
+        ++ missingRefs (refVisitEntry (.message ref)).entryRefs (l10nVisitMessage kp (refVisitEntry (.message ref)) l10n).entryRefs) hperm
+    have hs : checkMessage kp (.message ref) l10n = _ := check_message_structure kp ref l10n
+    simp only [List.append_assoc] at h hs ⊢
+    rw [hs]
+    exact h
+
+/-- `finish` (what `check` does with the message list) is that sort followed by the shift to entry-relative positions -/
+theorem finish_is_sort (start : Nat) (msgs : List Msg) : finish start msgs = (sortBy C08I.posLe msgs).map (toOut start) := rfl
+
+/-! ### the CSS warnings of check_style -/
+
+/-- **Text of the CSS warning.**  For dicts `ref_map`, `l10n_map` (distinct keys — `css_maps_are_dicts`), a non-empty
+    `l10n_map` and no syntax errors, `check_style` yields nothing when the maps agree, else ONE warning at position 0 whose
+    text is the `", "`-join of: `"<p> only in reference"` for the reference's properties the localization lacks, in REVERSE
+    reference order; `"<p> only in l10n"` for the localization's properties the reference lacks, in REVERSE localization
+    order; `"units for <p> don't match (<l10n unit> != <ref unit>)"` for common properties with different units, in
+    localization order.  Afterwards `ref_map` holds only the properties the localization did not name (`pop`). -/
+theorem css_warning_text (rm lm : CssMap) (ce : Option (List CssErr)) (hne : lm ≠ [])
+    (hce : (match ce with | some (_ :: _) => true | _ => false) = false)
+    (hl : (dictKeys lm).Nodup) (hr : (dictKeys rm).Nodup) :
+    checkStyle rm (some lm) ce =
+      (if (C08W.styleMsgs rm lm).isEmpty then []
+        else [⟨sevWarning, 0, join [44, 32] (C08W.styleMsgs rm lm)⟩], C08W.popped rm lm) ∧
+    C08W.styleMsgs rm lm =
+      ((C08W.onlyRef rm lm).map C08W.onlyRefMsg).reverse ++ ((C08W.onlyL10n rm lm).map C08W.onlyL10nMsg).reverse
+        ++ C08W.mismatches rm lm := by
+  have e9 : fmt checkStyleStr_9 [] = sevWarning := by decide
+  have e10 : fmt checkStyleStr_10 [] = [44, 32] := by decide
+  rw [C08W.checkStyle_ok rm lm ce hne hce hl hr, e9, e10]
+  exact ⟨rfl, rfl⟩
+
+/-- the parts of that text, as a set -/
+theorem css_warning_members (rm lm : CssMap) (m : Str) :
+    m ∈ C08W.styleMsgs rm lm ↔
+      (∃ q ∈ rm, q.1 ∉ dictKeys lm ∧ m = C08W.onlyRefMsg q.1) ∨
+      (∃ p ∈ lm, p.1 ∉ dictKeys rm ∧ m = C08W.onlyL10nMsg p.1) ∨
+      (∃ p ∈ lm, ∃ ru, dictGet? rm p.1 = some ru ∧ p.2 ≠ ru ∧ m = C08W.unitsMsg p.1 p.2 ru) :=
+  C08W.mem_styleMsgs rm lm m
+
+/-- the maps the hypotheses of `css_warning_text` talk about are what the code has: every map `parse_css_spec` returns, and
+    the reference visitor's `css_styles`, is non-empty with distinct keys -/
+theorem css_maps_are_dicts :
+    (∀ v m, (parseCssSpec v).1 = some m → m ≠ [] ∧ (dictKeys m).Nodup) ∧
+    (∀ ref rm, (refVisitEntry ref).css = .map rm → (dictKeys rm).Nodup) :=
+  ⟨fun v m h => ⟨C08W.parseCssSpec_ne_nil v m h, C08W.parseCssSpec_nodup v m h⟩, C08W.refVisitEntry_css_nodup⟩
+
+/-- **Several `style` attributes in one message: `reference.css_styles` is popped in place.**  With the reference's map
+    `rm`, the per-attribute messages of the l10n visitor are `C08W.attrsSpec`: attribute by attribute the node messages, then
+    the style verdict against the map AS IT IS AT THAT MOMENT (`C08W.styleVerdict`: the warning of `css_warning_text` for an
+    accepted style, the error for a bad one, nothing otherwise), then the map loses every property an accepted style named
+    (`C08W.popOne`).  So a property is reported "only in reference" by every accepted style that lacks it until one names
+    it, and a second style naming an already popped property reports it as "only in l10n".  Without a reference map (no
+    `style` in the reference, or a complex one) every style is compared with a fresh empty map. -/
+theorem css_pop_across_styles (kp : Option (List Str)) (rr : Slot → List Str) (attrs : List Attribute) :
+    (∀ rm, (dictKeys rm).Nodup → attrsMsgs kp rr (.map rm) attrs = C08W.attrsSpec kp rr rm attrs) ∧
+    (∀ rc, (∀ rm, rc ≠ .map rm) → attrsMsgs kp rr rc attrs = C08W.attrsSpecNoMap kp rr attrs) ∧
+    (∀ rm q, q ∈ attrs.foldl C08W.popOne rm ↔
+      q ∈ rm ∧ ∀ a ∈ attrs, ∀ lm, C08W.goodMap a = some lm → q.1 ∉ dictKeys lm) := by
+  refine ⟨fun rm hr => C08W.attrsMsgs_map kp rr rm hr attrs, fun rc hrc => C08W.attrsMsgs_nomap kp rr rc hrc attrs, ?_⟩
+  intro rm q
+  rw [← C08W.cssAfter_eq_foldl]
+  exact C08W.mem_cssAfter rm attrs q
+
+/-- **maybe_style** (the entry of the other checkers into the same code): nothing when the reference value holds no
+    declaration at all; otherwise exactly what `check_style` yields for the reference's map (syntax errors of the REFERENCE
+    are dropped) and the parsed localization, every tuple in category `css`. -/
+theorem maybe_style_spec (r l : Str) :
+    ((parseCssSpec r).1 = none → maybeStyle r l = []) ∧
+    (∀ rm, (parseCssSpec r).1 = some rm →
+      (maybeStyle r l).map C08W.dropCat = (checkStyle rm (parseCssSpec l).1 (parseCssSpec l).2).1 ∧
+      (∀ o ∈ maybeStyle r l, o.cat = fmt checkStyleStr_2 []) ∧
+      ((∃ o ∈ maybeStyle r l, o.sev = sevError) ↔ cssBad l = true)) := by
+  refine ⟨C08W.maybeStyle_none r l, ?_⟩
+  intro rm h
+  rw [C08W.maybeStyle_some r l rm h]
+  obtain ⟨h1, _, h3⟩ := C08W.checkStyle4_eq rm (parseCssSpec l).1 (parseCssSpec l).2
+  refine ⟨h1, h3, ?_⟩
+  have herr := checkStyle_errs rm (parseCssSpec l).1 (parseCssSpec l).2
+  rw [← h1] at herr
+  have heta : ((parseCssSpec l).fst, (parseCssSpec l).snd) = parseCssSpec l := rfl
+  rw [heta] at herr
+  constructor
+  · rintro ⟨o, ho, hs⟩
+    by_cases hb : cssBad l = true
+    · exact hb
+    · have hb' : cssBadP (parseCssSpec l) = false := by simpa [cssBad] using hb
+      rw [hb'] at herr
+      have : C08W.dropCat o ∈ errsOf ((checkStyle4 rm (parseCssSpec l).1 (parseCssSpec l).2).1.map C08W.dropCat) := by
+        refine List.mem_filter.mpr ⟨List.mem_map.mpr ⟨o, ho, rfl⟩, ?_⟩
+        simp [C08W.dropCat, hs]
+      rw [herr] at this
+      cases this
+  · intro hb
+    have hb' : cssBadP (parseCssSpec l) = true := hb
+    rw [hb'] at herr
+    have hmem : cssError ∈ errsOf ((checkStyle4 rm (parseCssSpec l).1 (parseCssSpec l).2).1.map C08W.dropCat) := by
+      rw [herr]; exact List.mem_cons_self
+    obtain ⟨hm, hsev⟩ := List.mem_filter.mp hmem
+    obtain ⟨o, ho, hoe⟩ := List.mem_map.mp hm
+    refine ⟨o, ho, ?_⟩
+    have : (C08W.dropCat o).sev = sevError := by rw [hoe]; rfl
+    exact this
+
+/-- `FluentEntity.equals` is reflexive (an entity equals itself, whatever it contains) -/
+theorem entity_equals_refl (e : Entry) : entityEquals e e = true := C08I.entityEquals_refl e
+
+/-! ### non-vacuity and negation witnesses of round 4 -/
+
+section examples4
+open Ftl
+
+private def t4 (s : String) : Str := s.toList.map Char.toNat
+private def pat4 (s : String) : Pattern := .mk 0 [.text (t4 s)]
+private def k4 (s : String) (p : Nat) : VKey := .ident p (t4 s)
+
+/-- the English message `{ $n -> [one] … *[other] … }`, copied verbatim into Russian (one, few, many) -/
+private def enPlural : Message :=
+  ⟨0, t4 "m", some (.mk 4 [.text (t4 "You have "), .placeable (.select (.varRef (t4 "n"))
+    [.mk (k4 "one" 20) (pat4 "one item") false, .mk (k4 "other" 40) (pat4 "many items") true])]), []⟩
+
+/-- **the regression `identical to the reference ⇒ []` is wrong for the model**: the verbatim copy gets the plural warning … -/
+example : (checkMessage (some [t4 "one", t4 "few", t4 "many"]) (.message enPlural) enPlural).map (fun m => (m.sev, m.pos, m.text)) =
+    [(sevWarning, 20, t4 "Plural categories missing: few, many")] := by decide +kernel
+/-- … the same one a re-texted copy gets (instance of `untranslated_copy_same_verdicts`, evaluated) … -/
+example : checkMessage (some [t4 "one", t4 "few", t4 "many"]) (.message enPlural)
+      (C08T.mapMsg (fun v => v ++ t4 " (ru)") id enPlural) =
+    checkMessage (some [t4 "one", t4 "few", t4 "many"]) (.message enPlural) enPlural := by decide +kernel
+/-- … and `mapMsg` really changes the texts (the theorem is not about the identity) -/
+example : (C08T.mapMsg (fun v => v ++ t4 "!") id ⟨0, t4 "m", some (pat4 "v"), [⟨8, t4 "a", pat4 "w"⟩]⟩).value.map patternVariants = some [t4 "v!"] ∧
+    (C08T.mapMsg (fun v => v ++ t4 "!") id ⟨0, t4 "m", some (pat4 "v"), [⟨8, t4 "a", pat4 "w"⟩]⟩).attributes.map (fun a => patternVariants a.value) =
+      [[t4 "w!"]] := by decide +kernel
+/-- a copied bad `style` stays an error; duplicated attributes stay warnings -/
+example : (checkMessage none (.message ⟨0, t4 "m", some (pat4 "v"), [⟨8, t4 "style", pat4 "wide"⟩, ⟨20, t4 "a", pat4 "x"⟩, ⟨30, t4 "a", pat4 "y"⟩]⟩)
+      ⟨0, t4 "m", some (pat4 "v"), [⟨8, t4 "style", pat4 "wide"⟩, ⟨20, t4 "a", pat4 "x"⟩, ⟨30, t4 "a", pat4 "y"⟩]⟩).map (fun m => (m.sev, m.pos)) =
+    [(sevWarning, 20), (sevWarning, 30), (sevError, 0)] := by decide +kernel
+/-- the CSS text of a `style` attribute is NOT free: `mapMsg` leaves it alone (a changed spec changes the verdict) -/
+example : (C08T.mapMsg (fun _ => t4 "x") id ⟨0, t4 "m", none, [⟨8, t4 "style", pat4 "width: 1em"⟩, ⟨30, t4 "label", pat4 "width: 1em"⟩]⟩).attributes.map
+      (fun a => patternVariants a.value) = [[t4 "width: 1em"], [t4 "x"]] := by decide +kernel
+example : checkMessage none (.message ⟨0, t4 "m", none, [⟨8, t4 "style", pat4 "width: 1em"⟩]⟩) ⟨0, t4 "m", none, [⟨8, t4 "style", pat4 "x"⟩]⟩ ≠
+    checkMessage none (.message ⟨0, t4 "m", none, [⟨8, t4 "style", pat4 "width: 1em"⟩]⟩) ⟨0, t4 "m", none, [⟨8, t4 "style", pat4 "width: 1em"⟩]⟩ := by
+  decide +kernel
+
+/-- CSS warning text, evaluated: reference `width: 1em; height: 2px; min-width: 3ch`, localization `max-width: 1in; height: 2em` -/
+example : (checkStyle [(t4 "width", some (t4 "em")), (t4 "height", some (t4 "px")), (t4 "min-width", some (t4 "ch"))]
+      (some [(t4 "max-width", some (t4 "in")), (t4 "height", some (t4 "em"))]) none) =
+    ([⟨sevWarning, 0, t4 "min-width only in reference, width only in reference, max-width only in l10n, units for height don't match (em != px)"⟩],
+     [(t4 "width", some (t4 "em")), (t4 "min-width", some (t4 "ch"))]) := by decide +kernel
+/-- two `style` attributes against the reference `width: 1em; height: 2px`: the first (`width: 1em`) pops `width`, so the second
+    (`width: 1em; height: 2px`) is told that `width` is only in l10n -/
+example : ((C08W.attrsSpec none (fun _ => []) [(t4 "width", some (t4 "em")), (t4 "height", some (t4 "px"))]
+      [⟨8, t4 "style", pat4 "width: 1em"⟩, ⟨30, t4 "style", pat4 "width: 1em; height: 2px"⟩]).map (·.text)) =
+    [t4 "height only in reference", t4 "width only in l10n"] := by decide +kernel
+/-- the hypotheses of `css_warning_text` are needed: with a duplicate key in `ref_map` (not a dict) `pop` removes one pair only -/
+example : (checkStyle [(t4 "width", some (t4 "em")), (t4 "width", some (t4 "px"))] (some [(t4 "width", some (t4 "em"))]) none).2 ≠
+    C08W.popped [(t4 "width", some (t4 "em")), (t4 "width", some (t4 "px"))] [(t4 "width", some (t4 "em"))] := by decide +kernel
+
+/-- maybe_style: reference without any declaration → silent; bad localization → the error; other unit → the warning -/
+example : maybeStyle (t4 "wide") (t4 "x") = [] ∧
+    (maybeStyle (t4 "width: 1em") (t4 "x")).map (fun o => (o.sev, o.text, o.cat)) = [(sevError, t4 "reference is a CSS spec", t4 "css")] ∧
+    (maybeStyle (t4 "width: 1em") (t4 "width: 1px")).map (fun o => (o.sev, o.text)) =
+      [(sevWarning, t4 "units for width don't match (px != em)")] := by decide +kernel
+
+/-- a run in another order: same multiset after the sort, same list once the run is left out -/
+example : sortBy C08I.posLe ([⟨sevWarning, 5, t4 "w"⟩] ++ [⟨sevError, 0, t4 "b"⟩, ⟨sevError, 0, t4 "a"⟩] ++ [⟨sevError, 3, t4 "o"⟩]) ≠
+    sortBy C08I.posLe ([⟨sevWarning, 5, t4 "w"⟩] ++ [⟨sevError, 0, t4 "a"⟩, ⟨sevError, 0, t4 "b"⟩] ++ [⟨sevError, 3, t4 "o"⟩]) := by decide +kernel
+
+/-- one instance: set_reference and earlier pairs do not touch a later verdict -/
+example : ((Checker.new (some (t4 "ru"))).run [.case (t4 "m") (t4 "m = x") (.message enPlural) (.message enPlural),
+      .setRef [t4 "a"], .case (t4 "m") (t4 "m = x") (.message enPlural) (.message enPlural)]).1.length = 2 := by decide +kernel
+
+/-- FluentEntity.equals ignores spans, not texts; a term ignores its attributes -/
+example : entityEquals (.message ⟨0, t4 "m", some (pat4 "a"), []⟩) (.message ⟨7, t4 "m", some (.mk 11 [.text (t4 "a")]), []⟩) = true ∧
+    entityEquals (.message ⟨0, t4 "m", some (pat4 "a"), []⟩) (.message ⟨0, t4 "m", some (pat4 "b"), []⟩) = false ∧
+    entityEquals (.term ⟨0, t4 "t", pat4 "a", [⟨5, t4 "x", pat4 "1"⟩]⟩) (.term ⟨0, t4 "t", pat4 "a", []⟩) = true ∧
+    entityEquals (.message ⟨0, t4 "t", some (pat4 "a"), [⟨5, t4 "x", pat4 "1"⟩]⟩) (.message ⟨0, t4 "t", some (pat4 "a"), []⟩) = false := by
+  decide +kernel
+
+/-- equal up to spans: the same verdicts at other positions (`equal_entities_same_verdicts`, evaluated) -/
+example : (checkMessage (some [t4 "one", t4 "few", t4 "many"]) (.message enPlural)
+      ⟨7, t4 "m", some (.mk 13 [.text (t4 "You have "), .placeable (.select (.varRef (t4 "n"))
+        [.mk (k4 "one" 33) (.mk 39 [.text (t4 "one item")]) false, .mk (k4 "other" 60) (.mk 68 [.text (t4 "many items")]) true])]), []⟩).map
+      (fun m => (m.sev, m.pos, m.text)) = [(sevWarning, 33, t4 "Plural categories missing: few, many")] := by decide +kernel
+/-- `FluentTerm.equals` ignores attributes, check_term does not: two "equal" terms with different verdicts -/
+example : entityEquals (.term ⟨0, t4 "t", pat4 "a", []⟩) (.term ⟨0, t4 "t", pat4 "a", [⟨5, t4 "x", pat4 "1"⟩, ⟨9, t4 "x", pat4 "2"⟩]⟩) = true ∧
+    (checkTerm none ⟨0, t4 "t", pat4 "a", []⟩).length = 0 ∧
+    (checkTerm none ⟨0, t4 "t", pat4 "a", [⟨5, t4 "x", pat4 "1"⟩, ⟨9, t4 "x", pat4 "2"⟩]⟩).length = 2 := by decide +kernel
+
+end examples4
 
 end C08
